@@ -91,12 +91,69 @@ def miri_c04(zv, env, max_cap, shards=16):
     json.dump(res, open(out_path, "w"))
     return out_path
 
+ASAN_TRIPLE = "x86_64-unknown-linux-gnu"
+
+def build_zv_asan():
+    """the same harness built by the nightly toolchain with AddressSanitizer (own target directory)"""
+    env = cargo_env("-Zsanitizer=address")
+    env["CARGO_TARGET_DIR"] = os.path.join(TARGET, "zv-asan")
+    run(["cargo", "+nightly", "build", "--release", "--offline", "--target", ASAN_TRIPLE, "-p", "zv"], HARNESS, env, "harness build (AddressSanitizer)")
+    return os.path.join(TARGET, "zv-asan", ASAN_TRIPLE, "release", "zv")
+
+def asan_tier(pid, env):
+    """C03 / C04, thorough tier: run the AddressSanitizer build of the engine over the quick bounds in a scratch
+    VERIF_DIR (its evidence and replays stay there); returns the path of a JSON summary that the main engine folds
+    into its own evidence and verdict (ev.rs)."""
+    import json, glob, shutil, time
+    work = os.path.join(VERIF, ".work", f"asan-{pid}-{os.getpid()}")
+    shutil.rmtree(work, ignore_errors=True)
+    os.makedirs(os.path.join(work, "evidence"), exist_ok=True)
+    res = {"rc": -1, "wall_s": 0.0, "coverage": {}, "violations": [], "report": ""}
+    out_path = os.path.join(work, "asan.json")
+    try:
+        zv = build_zv_asan()
+        shutil.copy(os.path.join(VERIF, "known_findings.json"), work)
+        e2 = dict(env, VERIF_DIR=work, VERIF_TIER="quick", ASAN_OPTIONS="detect_leaks=0:abort_on_error=1:symbolize=1")
+        if pid == "C04":
+            e2.setdefault("C04_MAX_CAP", "65")  # exhausts under the sanitizer in about a minute (129 hits the engine's wall cap)
+        for k in ("VERIF_ASAN_RESULT", "C04_MIRI_RESULT", "C04_MIRI", "VERIF_ASAN"):
+            e2.pop(k, None)
+        t0 = time.time()
+        r = subprocess.run([zv, pid, "--tier", "quick"], cwd=VERIF, env=e2, stdout=subprocess.PIPE, stderr=subprocess.STDOUT, text=True, errors="replace")
+        res["wall_s"] = round(time.time() - t0, 1)
+        res["rc"] = r.returncode
+        lines = r.stdout.splitlines()
+        at = next((i for i, l in enumerate(lines) if "ERROR: AddressSanitizer" in l), None)
+        if at is not None:
+            res["report"] = "\n".join(lines[at:at + 40])
+        try:
+            ev = json.load(open(os.path.join(work, "evidence", f"{pid}.json")))
+            res["coverage"] = {k: v for k, v in ev.get("coverage", {}).items() if isinstance(v, (int, float, bool))}
+        except Exception:
+            pass
+        for f in sorted(glob.glob(os.path.join(work, "replays", pid, "*.json")))[:20]:
+            try:
+                v = json.load(open(f)); res["violations"].append({"identity": v.get("identity", "?"), "what": v.get("what", "")[:1500]})
+            except Exception:
+                pass
+        if r.returncode not in (0, 1) and at is None:
+            res["machinery_error"] = f"the AddressSanitizer build of the engine ended with status {r.returncode}: " + "\n".join(lines[-15:])[-1200:]
+        if r.returncode == 1 and not res["violations"] and at is None:
+            res["machinery_error"] = "the AddressSanitizer build of the engine exited 1 without a replay file: " + "\n".join(lines[-15:])[-1200:]
+        print(f"[check] AddressSanitizer tier of {pid}: exit {r.returncode} in {res['wall_s']} s, {len(res['violations'])} violation(s), report={'yes' if res['report'] else 'no'}", flush=True)
+    except BuildError as e:
+        res["machinery_error"] = str(e)[-1500:]
+    json.dump(res, open(out_path, "w"))
+    return out_path
+
 def pre_run(pid, tier, env):
     """property-specific preparation (extra builds). Returns an exit code to stop, or None to continue."""
     try:
         if pid == "C04" and (tier == "thorough" or os.environ.get("C04_MIRI")):
             cap = int(os.environ.get("C04_MIRI_CAP", "17"))
             env["C04_MIRI_RESULT"] = miri_c04(os.path.join(TARGET, "zv", "release", "zv"), env, cap)
+        if pid in ("C03", "C04") and (tier == "thorough" or os.environ.get("VERIF_ASAN")):
+            env["VERIF_ASAN_RESULT"] = asan_tier(pid, env)
         if pid == "C18":
             build_featdrv()
         if pid == "C19":
